@@ -202,7 +202,6 @@ class World:
         self.threads = []
         self.off_thread = []            # callbacks observed on a thread other than L
         self.first_post = True
-        self.seen_closing = False
         self.infra = None
         self.handled = []               # exceptions handed to loop.call_exception_handler
 
@@ -835,10 +834,6 @@ def impl_view(case, impl):
         # the execution was cut short (detected deadlock, assertion, …): only trace acceptance is compared
         return {"accepted": True, "cut": o["status"]}
     return {"accepted": True, "final": impl["final"], "spc": "exited", "failed": False}
-
-
-def _cut_view(m):
-    return m
 
 
 def spec_requests(case, impl):
